@@ -8,7 +8,7 @@ is_minimally_hyperbolic, is_canonical, is_good, orbifold_symbol, is_weakly_orien
 the generated literal tables.
 
 * every literal of the Rust file is read from `Generated/Tables.lean` (`curvFac`, the
-  min/max curvature per geometry, the `compute_vmins` rules, the upper end 7 of the `for v`
+  min/max curvature per geometry, the cut-off `-CURV_FAC` and the divisor 2 of `new`, the `compute_vmins` rules, the upper end 7 of the `for v`
   loop, the list inside `is_good`), which `tools/extract_tables.py` regenerates from the
   source on every run.
 * `i64` arithmetic is `Int` (all values are bounded by `4 * CURV_FAC` in absolute value up
@@ -182,7 +182,7 @@ def baseLoop (vmins : List Nat) (isChain : List Bool) : List Nat → Int → Out
 
 /-- `base_curvature` as computed by `new` -/
 def baseCurvature (size : Nat) (vmins : List Nat) (isChain : List Bool) : Outcome Int :=
-  baseLoop vmins isChain (List.range vmins.length) (Int.tdiv (-curvFac) 2 * (size : Int))
+  baseLoop vmins isChain (List.range vmins.length) (Int.tdiv (-curvFac) Tables.chamberDivisor * (size : Int))
 
 /-- `DSymBackTracking::new(dset, geoms)` -/
 def mkCtx (ds : DSetData) (g : Geom) : Outcome Ctx :=
@@ -192,7 +192,7 @@ def mkCtx (ds : DSetData) (g : Geom) : Outcome Ctx :=
   let vmins := computeVmins rs
   match baseCurvature ds.size vmins isChain with
   | .ok base =>
-    let minC := max g.minCurvature (if base < 0 then base else -curvFac)
+    let minC := max g.minCurvature (if base < 0 then base else Tables.minHypCutoff)
     let maxC := g.maxCurvature
     if base ≥ 0 then
       match orbitMaps ds vmins.length o.index with
